@@ -372,6 +372,32 @@ func verifCollect[K comparable, V any](m *Map[K, V]) []Tuple[K, V] {
 //@   ensures [restored] sameSet(seen) && allTrue(seen)
 //@   ensures [wf] wf(m) && m.index == old(m.index) && (arr(m.items) == old(arr(m.items)) || fresh(m.items))
 
+// ---- C16: the reflective unmarshaler (the parts within reach of contracts) ----
+// decodeInto's struct case hands every key that no field consumed (outlineKeys)
+// to the inline field, and only those: the closure that fills the temporary
+// map. (The field loop itself is reflection-driven; see the bounded stand-in.)
+//@ func (*Map).decodeInto$2
+//@   requires temp != nil && wf(temp) && temp.index != nil
+//@   assigns temp.index, temp.items, *temp.index, temp.items[..]
+//@   ensures [nil] ret == nil
+//@   ensures [outline] has(outlineKeys, k) ==> unchanged()
+//@   ensures [inline] !has(outlineKeys, k) ==> wf(temp) && has(temp.index, k) && temp.items[temp.index[k]].Value == v &&
+//@       (forall k2 string :: {has(temp.index, k2)} k2 != k ==> has(temp.index, k2) == old(has(temp.index, k2)))
+
+// A scalar goes into *S by copy, into *[]S / *[]any by appending, into *string /
+// *[]string through fmt.Sprint; any other destination is an error and nothing
+// is written.
+//@ define nonNilPtr(dst) := (typeis(dst, *S) ==> unbox(dst, *S) != nil) && (typeis(dst, *[]S) ==> unbox(dst, *[]S) != nil) && (typeis(dst, *[]any) ==> unbox(dst, *[]any) != nil) &&
+//@     (typeis(dst, *string) ==> unbox(dst, *string) != nil) && (typeis(dst, *[]string) ==> unbox(dst, *[]string) != nil)
+//@ func unmarshalScalar
+//@   requires nonNilPtr(dst)
+//@   assigns *unbox(dst, *S), *unbox(dst, *[]S), *unbox(dst, *[]any), *unbox(dst, *string), *unbox(dst, *[]string),
+//@       (*unbox(dst, *[]S))[..], (*unbox(dst, *[]any))[..], (*unbox(dst, *[]string))[..]
+//@   ensures [copy] typeis(dst, *S) && unbox(dst, *S) != nil ==> ret == nil && *unbox(dst, *S) == src
+//@   ensures [append] typeis(dst, *[]S) && unbox(dst, *[]S) != nil ==> ret == nil && len(*unbox(dst, *[]S)) == old(len(*unbox(dst, *[]S))) + 1 &&
+//@       (*unbox(dst, *[]S))[old(len(*unbox(dst, *[]S)))] == src
+//@   ensures [other] !typeis(dst, *S) && !typeis(dst, *[]S) && !typeis(dst, *[]any) && !typeis(dst, *string) && !typeis(dst, *[]string) ==> ret != nil && unchanged()
+
 // Unmarshal is given its frame only here: it may write anything reachable from
 // dst (stated coarsely as "everything"); functional clauses are added by the
 // properties that need them.
